@@ -144,7 +144,7 @@ def main():
     from harness.lie import prelude as _prelude
     _prelude(run, report=("identity", "matrix"))
     from harness import history as _history      # engine H: call histories in fresh interpreters (spec/LieHistory.tla)
-    if _history.hook(run, tier, {"mat", "inv", "sq", "ident", "mat_held"}):
+    if _history.hook(run, tier, {"mat", "inv", "sq", "ident", "mat_held", "mat_after_extend", "sq_after_extend"}):
         return run.finish()
     if "--replay" in sys.argv:
         d = json.load(open(sys.argv[sys.argv.index("--replay") + 1]))
